@@ -49,9 +49,18 @@ class TS:
     self.last_loc = None
 
 
+OVERRIDE = None             # {'script': [...]}: every Sched created meanwhile follows this explicit choice list (vt/sysx.py)
+LAST = None                 # the scheduler created last (read back by the systematic explorer)
+
+
 class Sched:
   def __init__(self, seed=0, policy='random', p_switch=0.25, p_time=0.0, max_steps=200000,
                horizon=1e9, pct_depth=3, pct_len=400, rr_after=None):
+    global LAST
+    LAST = self
+    if OVERRIDE is not None:
+      # systematic exploration: the schedule is an input, nothing about it is drawn at random
+      policy, p_time, rr_after = 'script', 0.0, None
     self.rng = random.Random(seed)
     self.policy, self.p_switch, self.p_time = policy, p_switch, p_time
     self.max_steps, self.horizon = max_steps, horizon
@@ -61,7 +70,9 @@ class Sched:
     self.rr_i = 0
     self.rr_after = rr_after          # step index after which the policy becomes fair round-robin
     self.trail = []                   # (from, to, loc) of every context switch
-    self.script, self.decisions = [], []   # policy 'script': explicit choice list (exhaustive sweeps)
+    self.script, self.decisions = [], []   # policy 'script': explicit choice list (exhaustive sweeps); decisions: (choice, options, caller could have continued)
+    if OVERRIDE is not None:
+      self.script = list(OVERRIDE['script'])
     self.locs = collections.Counter()
     self.windows = collections.Counter()
     self.pct_changes = sorted(self.rng.randrange(1, max(2, pct_len)) for _ in range(max(0, pct_depth - 1))) if policy == 'pct' else []
@@ -119,7 +130,7 @@ class Sched:
         self.picks.append(t.idx)
         return t
     t = self._pick_policy(me, cands, me_enabled)
-    if self.state_fn is not None:
+    if self.state_fn is not None and self.policy != 'script':
       self.picks.append(t.idx)
     return t
 
@@ -178,8 +189,8 @@ class Sched:
         return opts[0]
       i = len(self.decisions)
       c = self.script[i] if i < len(self.script) else 0
-      self.decisions.append((c, len(opts)))
-      return opts[c]
+      self.decisions.append((c, len(opts), bool(me_enabled)))
+      return opts[min(c, len(opts) - 1)]
     if pol == 'rr':
       allc = sorted(cands + ([me] if me_enabled else []), key=lambda t: t.idx)
       self.rr_i += 1
@@ -257,7 +268,7 @@ class Sched:
     self.steps += 1
     me.nyield += 1
     me.last_loc = loc
-    if self.state_fn is not None:
+    if self.state_fn is not None and self.policy != 'script':
       self._lasso_step(me)
     if loc is not None:
       self.locs[loc] += 1
